@@ -4,6 +4,7 @@ package knxnet
 
 import (
 	"errors"
+	"io"
 	"net"
 
 	"github.com/vapourismo/knx-go/knx/cemi"
@@ -250,6 +251,15 @@ func (di *DescriptionBlock) Unpack(data []byte) (n uint, err error) {
 			return 0, err
 		}
 
+		// A block covers at least its own two header octets and must lie within the data.
+		if length < 2 {
+			return 0, errors.New("description block length is invalid")
+		}
+
+		if n+uint(length) > uint(len(data)) {
+			return 0, io.ErrUnexpectedEOF
+		}
+
 		switch ty {
 		case DescriptionTypeDeviceInfo:
 			_, err = di.DeviceHardware.Unpack(data[n : n+uint(length)])
@@ -270,7 +280,7 @@ func (di *DescriptionBlock) Unpack(data []byte) (n uint, err error) {
 			u := UnknownDescriptionBlock{Type: ty}
 
 			// known DIBs without data will be silently ignored.
-			if length > 2 {
+			if length > 3 {
 				_, err = u.Unpack(data[n+2 : n+uint(length)-2])
 				if err != nil {
 					return 0, err
